@@ -66,6 +66,11 @@ func prepareGenerated(r *runner, prog *MProgram, cfg genConfig, entry func(g *ha
 		return err
 	}
 	os.WriteFile(filepath.Join(rt, "zzrt.go"), b, 0o644)
+	sk := filepath.Join(mod, "internal", "zzskip")
+	os.MkdirAll(sk, 0o755)
+	if b, err := os.ReadFile("/verif/harness/gencommon/zzskip/zzskip.go"); err == nil {
+		os.WriteFile(filepath.Join(sk, "zzskip.go"), b, 0o644)
+	}
 	ref, err := os.ReadFile("/verif/harness/gencommon/zzref.go")
 	if err != nil {
 		return err
@@ -80,6 +85,9 @@ func prepareGenerated(r *runner, prog *MProgram, cfg genConfig, entry func(g *ha
 		os.WriteFile(filepath.Join(pkgDir, "zz_ref.go"), []byte(strings.Replace(string(ref), "package PKGNAME", "package "+pkg, 1)), 0o644)
 		g := &harnessGen{p: prog, f: f, opts: cfg.Opts}
 		os.WriteFile(filepath.Join(pkgDir, "zz_gen.go"), []byte(g.emitFile(pkg)), 0o644)
+		if cfg.Backend == "fastgo" {
+			os.WriteFile(filepath.Join(pkgDir, "zz_imports.go"), []byte("package "+pkg+"\n\nimport _ \"zzgen/internal/zzskip\"\n"), 0o644)
+		}
 		if entry != nil {
 			if src := entry(g, pkg); src != "" {
 				os.WriteFile(filepath.Join(pkgDir, "zz_entry.go"), []byte(src), 0o644)
